@@ -60,7 +60,7 @@ def font_fields(v):
 
 def run(ctx, rep):
     prog = ctx.program("default")
-    rep.configs.append("default")
+    rep.configs.append(getattr(ctx, "alias", "default"))
     fonts = font_table(prog)
     rep.floor("R14.1", "MonoFont constants", len(fonts), 280)
     n_map = set()
